@@ -88,7 +88,12 @@ def _print_Piecewise(
         else:
             return printer._print(cond)
 
-    expr = sympy.simplify(expr)
+    # Simplification may collapse the Piecewise into a plain expression (contradictory
+    # condition) or drop the final ``True`` branch (tautological condition): in that
+    # case print the conditional as it was written
+    simplified = sympy.simplify(expr)
+    if isinstance(simplified, sympy.Piecewise) and simplified.args[-1].cond == True:  # noqa: E712
+        expr = simplified
 
     exprs = [printer._print(arg.expr) for arg in expr.args]
     conds = [print_cond(arg.cond) for arg in expr.args]
